@@ -1319,8 +1319,21 @@ fn fam_ibc(r: &mut Rng) -> Result<(), String> {
     // in flight: nobody but the admin can re-send it
     if execute(deps.as_mut(), mock_env(), mock_info(USER, &[]), ExecuteMsg::RecoverPendingIbcTransfers { paginated: None, selected_packets: None, receiver: None }).is_ok() { return Err("recovery accepted although it selects a transfer that is still in flight".into()); }
     // stray acknowledgements and timeouts change nothing
-    let sudo_ack = |deps: &mut Deps, ch: &str, q: u64, ok: bool| sudo(deps.as_mut(), mock_env(), SudoMsg::IBCLifecycleComplete(IBCLifecycleComplete::IBCAck { channel: ch.into(), sequence: q, ack: "{}".into(), success: ok }));
-    let sudo_to = |deps: &mut Deps, ch: &str, q: u64| sudo(deps.as_mut(), mock_env(), SudoMsg::IBCLifecycleComplete(IBCLifecycleComplete::IBCTimeout { channel: ch.into(), sequence: q }));
+    // the callbacks arrive as the JSON the ibc-hooks module sends (x/ibc-hooks, `sudo` with `ibc_lifecycle_complete`): decode that,
+    // as the wasm entry point does, instead of building the Rust values
+    let decode_sudo = |js: String| -> Result<SudoMsg, String> { cosmwasm_std::from_json::<SudoMsg>(js.as_bytes()).map_err(|e| format!("the ibc-hooks callback {js} does not decode as SudoMsg ({e}): the acknowledgement / timeout is never delivered")) };
+    let ack_msg = |ch: &str, q: u64, ok: bool| decode_sudo(format!("{{\"ibc_lifecycle_complete\":{{\"ibc_ack\":{{\"channel\":\"{ch}\",\"sequence\":{q},\"ack\":\"{{}}\",\"success\":{ok}}}}}}}"));
+    let to_msg = |ch: &str, q: u64| decode_sudo(format!("{{\"ibc_lifecycle_complete\":{{\"ibc_timeout\":{{\"channel\":\"{ch}\",\"sequence\":{q}}}}}}}"));
+    {
+        let a = ack_msg(CHANNEL, 1, true)?;
+        let t = to_msg(CHANNEL, 1)?;
+        if a != SudoMsg::IBCLifecycleComplete(IBCLifecycleComplete::IBCAck { channel: CHANNEL.into(), sequence: 1, ack: "{}".into(), success: true })
+            || t != SudoMsg::IBCLifecycleComplete(IBCLifecycleComplete::IBCTimeout { channel: CHANNEL.into(), sequence: 1 }) {
+            return Err(format!("the ibc-hooks acknowledgement / timeout JSON decodes to {a:?} / {t:?}"));
+        }
+    }
+    let sudo_ack = |deps: &mut Deps, ch: &str, q: u64, ok: bool| sudo(deps.as_mut(), mock_env(), ack_msg(ch, q, ok).unwrap());
+    let sudo_to = |deps: &mut Deps, ch: &str, q: u64| sudo(deps.as_mut(), mock_env(), to_msg(ch, q).unwrap());
     let before = dump(&deps.storage);
     let ok = r.next() % 2 == 0;
     let _ = sudo_ack(&mut deps, "channel-7", seq, ok);
